@@ -25,6 +25,11 @@ def obligations(tier):
     obs.append(Ob("C06.norm/pipeline", "pipe", "c_norm_pipe", {}, 300 if tier == "quick" else 900,
                   ["whole pipeline (harness/pipe.py) with normalize_names toggled on the shared parser object"],
                   "6 catalogued statements with delimited names in every naming position (symbolic index): output with normalize_names=True == output without it, delimiters stripped"))
+    obs.append(Ob("C06.pipe/ident-chars", "pipe", "c_ident_rel", {}, 400 if tier == "quick" else 1200,
+                  ["whole pipeline (harness/pipe.py): pre-processor incl. comment handling, lexer, LALR driver, actions, output"],
+                  "18 catalogued identifiers (letters, digits, _ $ # @ -, trailing / inner '#', mixed case, delimited forms containing '#') x 12 name positions "
+                  "(table, schema, column in definition / PK list / UNIQUE list / index list / ALTER DROP / own line, constraint, index, sequence, referenced table) - both symbolic; "
+                  "relational oracle: result == result for the neutral name zz, renamed"))
     obs.append(Ob("C06.norm/constraint-named-key", "drv", "c_items", {"VF_I1": 18, "VF_NAMES": 0, "VF_NORM": 1}, 300 if tier == "quick" else 900,
                   ["real LALR driver + actions + BaseData post-processing (harness/drv.py c_items)"],
                   "normalize_names=True: UNIQUE KEY `key` (a, b) + any second item: the constraint keeps its name, only the delimiters go"))
